@@ -319,3 +319,59 @@ Fixpoint made_list_eqb (a b : list made) : bool :=
   | x :: a', y :: b' => made_eqb x y && made_list_eqb a' b'
   | _, _ => false
   end.
+
+(* ------------------------------- children stored in and read from a directory *)
+(* dirnode._pack_normalized_children writes, per child,
+     ro slot:  strip_prefix_for_ro(child.get_readonly_uri() or b"", deep_immutable)
+     rw slot:  child.get_write_uri() or b"", encrypted under the directory's write key
+   and DirectoryNode._unpack_contents reads it back as
+     create_from_cap(rw.rstrip(b" ") or None, ro.rstrip(b" ") or None, deep_immutable = not self.is_mutable())
+   (rw only through a writeable view of a mutable directory), drops the child when
+   raise_error() raises a CapConstraintError, and, in an immutable directory, when the node
+   is not is_allowed_in_immutable_directory(). *)
+Fixpoint drop_spaces (s : bytes) : bytes :=
+  match s with
+  | c :: r => if c =? 32 then drop_spaces r else s
+  | [] => []
+  end.
+Definition rstrip_spaces (s : bytes) : bytes := rev (drop_spaces (rev s)).
+
+Definition is_some {A} (o : option A) : bool := match o with Some _ => true | None => false end.
+
+(* node.get_write_uri() / get_readonly_uri() of what create_from_cap returned *)
+Definition made_write_uri (m : made) : option bytes :=
+  match m with
+  | MNode c => match is_readonly c with Some false => Some (to_string c) | _ => None end
+  | MUnknown (UOk n) => un_rw n
+  | _ => None
+  end.
+
+Definition made_readonly_uri (m : made) : option bytes :=
+  match m with
+  | MNode c => option_map to_string (get_readonly c)
+  | MUnknown (UOk n) => un_ro n
+  | _ => None
+  end.
+
+Definition from_opt (o : option bytes) : bytes := match o with Some b => b | None => [] end.
+
+(* None = the child is dropped on read-back *)
+Definition dir_store_read (m : made) (deep_immutable view_writeable : bool) : option made :=
+  let rw := from_opt (made_write_uri m) in
+  let ro := strip_prefix_for_ro (from_opt (made_readonly_uri m)) deep_immutable in
+  let rw' := if view_writeable then or_none (Some (rstrip_spaces rw)) else None in
+  let ro' := or_none (Some (rstrip_spaces ro)) in
+  let child := create_fresh rw' ro' deep_immutable in
+  match child with
+  | MNode c => if deep_immutable && (match is_mutable c with Some true => true | _ => false end) then None else Some child
+  | MUnknown (UOk n) =>
+    match un_error n with
+    | ENone => if deep_immutable && is_some (un_rw n) then None else Some child
+    | _ => None
+    end
+  | _ => Some child
+  end.
+
+(* how strong the allegation carried by a cap string is: 2 = imm., 1 = ro., 0 = none *)
+Definition strength (r : bytes) : nat :=
+  if starts_with imm_prefix r then 2%nat else if starts_with ro_prefix r then 1%nat else 0%nat.
